@@ -18,3 +18,10 @@ pub fn rs_new() -> std::hash::RandomState {
 pub fn do_count_chars_unreachable(_s: &str) -> usize {
     panic!("do_count_chars reached: string of 32 bytes or more in a short-string harness")
 }
+
+/// `core::str::slice_error_fail` builds the panic message of an out-of-range / non-boundary
+/// string slice (truncating the string at a char boundary, several loops). The stub panics
+/// right away: same control flow (a panic, reported by Kani as a failure), no message.
+pub fn slice_error_fail_stub(_s: &str, _begin: usize, _end: usize) -> ! {
+    panic!("string slice out of range or not on a char boundary")
+}
